@@ -15,10 +15,13 @@ PROPS = {
                       "seven genny instances are shown to be the template by a regenerated obligation; model = code is validated "
                       "exhaustively on small inputs and randomly on larger ones; the cursor encoder of the source (OffsetToCursor: "
                       "base-64 of cursor:<decimal offset>) is modelled and proved injective, so the walk theorems hold for it without "
-                      "any assumption (walk_forward_go, walk_backward_go)",
+                      "any assumption (walk_forward_go, walk_backward_go); every paginated field of the served GraphQL schema "
+                      "(allBugs, allIdentities, validLabels, a bug's comments, timeline, operations, actors, participants) is walked "
+                      "page by page through the real handler, one request per page, and every page is also a case for the model; that "
+                      "the list the resolvers page over is the same for every request of a walk is C12's query_deterministic (the bug "
+                      "order is total, so independent of map iteration) and, for identities, the sort repaired in /repo",
         "level_note": "Trusted: Lean kernel, the extractor, the harness/comparer. Assumed: edge makers use OffsetToCursor(offset) (true of all "
-                      "call sites), the source list does not change between the "
-                      "requests of one walk (the resolvers recompute it per request from map-ordered data: outside the connection code).",
+                      "call sites). Nothing changes the repository between the requests of one walk.",
         "required_theorems": ["page_window", "page_inside_cursors", "walk_forward", "walk_backward", "hasNext_truthful",
                               "hasPrev_truthful", "cursors_are_ends", "total_is_length", "negative_first_rejected",
                               "negative_last_rejected", "foreign_after_ignored", "foreign_before_ignored",
@@ -26,12 +29,14 @@ PROPS = {
         "slices": ["C20"],
         "rule": "exhaustive over n<=N x cursor candidates^2 x first/last in {nil,-1..N+1} on one template instance, "
                 "plus random larger inputs on the other instances; a case is non-trivial when the page is a proper, "
-                "non-empty part of the list; distinct = distinct (n, cursor classes, first, last, page)",
+                "non-empty part of the list; distinct = distinct (n, cursor classes, first, last, page); GraphQL: populations of "
+                "5-9 identities, 4-12 bugs (every other population with bugs tied in clock and timestamp across two replicas), one "
+                "bug with a long history; forward and backward walks with pages of 1,2,3,n-1,n,n+1 over each of the 8 paginated fields",
         "trusted_base": [KERNEL, TIE,
                          "model: GitBugModel.Conn (paginate, walkForward, walkBackward) for connections.NameCon and its genny instances",
                          "cursor encoder: theorems hold for any injective enc; OffsetToCursor itself is modelled (GitBugModel.Cursor: decimal, prefix, base-64 with padding), proved injective (goEnc_injective) and compared with the implementation's cursors on every case",
-                         "gqlgen argument decoding and the resolvers' choice of source list are outside the model"],
-        "assumptions": ["the source list is the same for every page of one walk (the resolvers recompute it per request)",
+                         "gqlgen argument decoding is outside the model; the resolvers' source lists are exercised through the served API (c20Gql)"],
+        "assumptions": ["the repository does not change between the pages of one walk",
                         "edge makers build the cursor as OffsetToCursor(offset), as all call sites in api/graphql/resolvers do"],
         "gen_facts": ["Gen.Conn: each gen_*.go body equals connection_template.go up to the genny type names"],
     },
@@ -224,7 +229,7 @@ PROPS = {
                       "tables by the harness (computed with the real functions). sort.Sort is assumed to sort under a strict weak order. "
                       "Observed and reproduced by the model, not classified as violations: `label::x` parses as label:x and `label:\"\"` as "
                       "an empty value (the in-loop empty-chunk test is dead code). Fixed in /repo: search results were capped at 10.",
-        "required_theorems": ["match_spec", "identity_match_ci", "sortBy_perm", "sortBy_sorted", "less_weak", "query_result", "query_exact",
+        "required_theorems": ["match_spec", "identity_match_ci", "sortBy_perm", "sortBy_sorted", "less_weak", "less_total", "query_result", "query_exact", "query_deterministic",
                               "parse_rejects_two_sorts", "parse_rejects_unknown_qualifier", "parse_rejects_unknown_status",
                               "parse_rejects_unknown_sort", "parse_rejects_unknown_no", "parse_label", "parse_metadata", "parse_search",
                               "split_unmatched", "field_edge_colon", "parse_render", "tokenize_rendered"],
